@@ -134,6 +134,17 @@ func H_C01_roundtrip() {
 	if pick("rootname", 2, 0) == 1 {
 		t.Root().SetName("rootnode")
 	}
+	if pick("nonascii", 2, 0) == 1 {
+		// names and comments are not restricted to ASCII: concrete multi-byte characters
+		t.Tips()[0].SetName("Caf\u00e9 \u4e2d")
+		t.Tips()[1].AddComment("\u00fcber=\u03b1")
+		for _, e := range t.Edges() {
+			if e.Length() != tree.NIL_LENGTH && len(e.Comments()) == 0 {
+				e.AddComment("\u00e7")
+				break
+			}
+		}
+	}
 	if sym {
 		// one tip name, one inner name, one node comment and one branch comment made
 		// of arbitrary admissible bytes (all values at once)
